@@ -99,16 +99,19 @@ def _gen_command(rng, dflt, keys, merge_files):
 
 def gen_fault(rng, config, est_steps, nlanes):
     if config == "iofault":
-        kind = rng.choice(["eio", "eio", "eio", "kill", "short"])
+        kind = rng.choice(["eio", "eio", "eio", "kill", "short", "short_os"])
     else:
         kind = rng.choice(FAULT_KINDS_CRASH)
     f = {"kind": kind}
     if kind == "eio":
         f["errno"] = rng.choice([28, 5, 13])  # ENOSPC EIO EACCES
-    if kind in ("short", "kill_partial"):
+    if kind in ("short", "kill_partial", "short_os"):
         f["frac"] = rng.choice([0.01, 0.1, 0.5, 0.9, 0.99])
     if kind == "stall":
         f["dt"] = rng.choice([0.001, 0.05, 1.0])
+    if kind == "short_os":
+        f["when"] = {"op": "write_os", "n": rng.randint(1, 3)}
+        return f
     if kind in ("short", "kill_partial") or rng.random() < 0.45:
         op = "write" if kind in ("short", "kill_partial") else rng.choice(
             OPS_FOR_WHEN)
@@ -552,8 +555,10 @@ class C19(Check):
                 ops = [e for e in sim.oplog if e[1] == 0]
                 for j, (step, vid, op, path, _f) in enumerate(ops):
                     kinds = ["kill", "int", "int_after"]
-                    if op == "write":
+                    if op in ("write", "write_os"):
                         kinds.append("kill_partial")
+                    if op == "write_os":
+                        kinds.append("short_os")  # partial success (ENOSPC)
                     if tiny and op == "write":
                         # every partial length is already a kill point
                         kinds = ["kill"] if j % 8 else ["kill", "int"]
@@ -562,7 +567,7 @@ class C19(Check):
                     for kind in kinds:
                         c = copy.deepcopy(base)
                         f = {"kind": kind, "step": step}
-                        if kind == "kill_partial":
+                        if kind in ("kill_partial", "short_os"):
                             f["frac"] = 0.5
                         c["epochs"][0]["faults"] = [f]
                         c["sweep_point"] = [j, n, op, path]
